@@ -71,11 +71,15 @@
 //   Encoder / Decoder   sliced to their supertraits `lib0::Write` / `lib0::Read` (no other method is used here), as in unit tags.
 //   Error          sliced stand-in of units/lib0_common/base.rs (same variants).
 //
-// TRUSTED (same three items as unit tags, nothing else)
+// TRUSTED (same items as unit tags, nothing else)
 //   A-STR          `law_utf8_round_trip`: from_utf8(utf8(s)) == s  (assumed law about the uninterpreted utf8 / from_utf8)
 //   A2  str bytes  `<Str as VxBytes>::as_ref`: std `str::as_bytes` names the UTF-8 bytes of the string (= utf8(chars))
-//   A9  read_string   `ReadStr::read_string`: stand-in for the real `unsafe { from_utf8_unchecked(self.read_buf()?) }` =
-//                  read_buf + the uninterpreted conversion `from_utf8`
+//   A-STR2         `law_utf8_valid`: valid_utf8(utf8(s))  (the bytes of a string are valid UTF-8)
+//   A9' from_utf8  `vx_from_utf8`: std `std::str::from_utf8` (SUB, logged): Ok exactly for `valid_utf8(bytes)`, and then the
+//                  string `from_utf8(bytes)` (both uninterpreted).  `Read::read_string` ITSELF is the real body since /repo
+//                  6f5f4d8 (`let buf = self.read_buf()?; std::str::from_utf8(buf).map_err(|_| Error::UnexpectedValue)`, the real
+//                  closure kept and annotated with @closure); before that it was `unsafe { from_utf8_unchecked(..) }` and a
+//                  trusted stand-in here (DESIGN A9) whose contract claimed Ok for every buffer.
 //   + what units/lib0_common/base.rs trusts (std `i64::unsigned_abs`, `i64::wrapping_neg`)
 //
 // NOT IN THIS UNIT: the store lookups of `get_offset` (`get_clock`, `follow_redone`, `parent.as_branch()`, the `Some(i) if
@@ -122,13 +126,21 @@ pub trait Decoder: Read {
     /*@extract yrs/src/updates/decoder.rs | trait Decoder: Read | fn read_type_ref @*/
 }
 
-/// the UTF-8 bytes of a string / the string `from_utf8_unchecked` makes of a byte buffer
+/// the UTF-8 bytes of a string / the string `std::str::from_utf8` makes of a VALID byte buffer / validity of a byte buffer
 pub uninterp spec fn utf8(s: Seq<char>) -> Seq<u8>;
 pub uninterp spec fn from_utf8(b: Seq<u8>) -> Seq<char>;
+pub uninterp spec fn valid_utf8(b: Seq<u8>) -> bool;
 
 /// A-STR (ASSUMED law, the same one unit tags uses): decoding the UTF-8 bytes of a string gives the string back
 #[verifier::external_body] pub proof fn law_utf8_round_trip(s: Seq<char>)
     ensures from_utf8(utf8(s)) == s,
+{
+}
+
+/// A-STR2 (ASSUMED law, as in unit tags): the bytes of a string (what `write_string` writes: `str::as_bytes`) are valid UTF-8
+/// (a `str` is valid UTF-8 by its type invariant)
+#[verifier::external_body] pub proof fn law_utf8_valid(s: Seq<char>)
+    ensures valid_utf8(utf8(s)),
 {
 }
 
@@ -168,21 +180,47 @@ pub trait WriteStr: Write {
 
 impl<W: Write> WriteStr for W {}
 
+/// std `core::str::Utf8Error`: opaque stand-in (never inspected: the real closure is `|_| Error::UnexpectedValue`)
+pub struct Utf8ErrorStandIn;
+
+/// TRUSTED std stand-in (A9'): `std::str::from_utf8` -- "Converts a slice of bytes to a string slice. ... Returns Err if the
+/// slice is not UTF-8": Ok exactly for the valid byte strings, and then the string those bytes spell
+#[verifier::external_body] pub fn vx_from_utf8(buf: &[u8]) -> (r: Result<&Str, Utf8ErrorStandIn>)
+    ensures
+        r is Ok <==> valid_utf8(buf@),
+        r is Ok ==> r->Ok_0.chars@ == from_utf8(buf@),
+{
+    unimplemented!()
+}
+
+/// what `Read::read_string` computes on ANY byte string: a length-prefixed buffer that must be valid UTF-8.
+/// None = Err (truncated / over-long length prefix, or invalid UTF-8), Some((chars, k)) = the string from the first k bytes
+pub open spec fn dec_str(s: Seq<u8>) -> Option<(Seq<char>, nat)> {
+    match dec_buf(s) {
+        None => None,
+        Some((b, k)) => if valid_utf8(b) { Some((from_utf8(b), k)) } else { None },
+    }
+}
+
 pub trait ReadStr: Read {
-    /// TRUSTED stand-in for `Read::read_string` (real body: `unsafe { from_utf8_unchecked(self.read_buf()?) }`, not
-    /// ingestible and undefined behaviour on non-UTF-8 input, DESIGN A9): read_buf + the uninterpreted conversion
-    #[verifier::external_body] fn read_string(&mut self) -> (res: Result<&Str, Error>)
+    // the REAL body of `Read::read_string` (extension-trait position like read_buf, see units/lib0_common/base.rs SLICING)
+    /*@extract yrs/src/encoding/read.rs | trait Read: Sized | fn read_string | rules=SUB(from=&str;;to=&Str) SUB(from=std::str::from_utf8(buf);;to=vx_from_utf8(buf))
+    @ret res
+    @sig
         requires
             old(self).wf(),
         ensures
             final(self).wf(),
+            suffix_of(old(self).rest(), final(self).rest()),
             match dec_buf(old(self).rest()) {
-                Some((b, k)) => res is Ok && res->Ok_0.chars@ == from_utf8(b) && k <= old(self).rest().len() && final(self).rest() == old(self).rest().skip(k as int),
-                None => res is Err && suffix_of(old(self).rest(), final(self).rest()),
+                Some((b, k)) => k <= old(self).rest().len() && final(self).rest() == old(self).rest().skip(k as int)
+                    && (valid_utf8(b) ==> res is Ok && res->Ok_0.chars@ == from_utf8(b))
+                    && (!valid_utf8(b) ==> res is Err && res->Err_0 is UnexpectedValue),
+                None => res is Err,
             },
-    {
-        unimplemented!()
-    }
+    @closure 1 `|_e: Utf8ErrorStandIn| -> (vx_e: Error)`
+        ensures vx_e is UnexpectedValue,
+    @*/
 }
 
 impl<R: Read> ReadStr for R {}
@@ -318,9 +356,10 @@ pub open spec fn dec_scope(s: Seq<u8>) -> Option<(IndexScope, nat)> {
                     Some((id, k2)) => Some((IndexScope::Relative(id), k + k2)),
                 }
             } else if tag == 1 {
-                match dec_buf(s1) {
+                // `read_string`: a length-prefixed buffer that must be VALID UTF-8 (else Err(UnexpectedValue))
+                match dec_str(s1) {
                     None => None,
-                    Some((b, k2)) => Some((IndexScope::Root(str_of(from_utf8(b))), k + k2)),
+                    Some((name, k2)) => Some((IndexScope::Root(str_of(name)), k + k2)),
                 }
             } else if tag == 2 {
                 match dec_id(s1) {
@@ -330,6 +369,19 @@ pub open spec fn dec_scope(s: Seq<u8>) -> Option<(IndexScope, nat)> {
             } else {
                 None
             }
+        },
+    }
+}
+
+/// the input class of the repaired defect (C10): a root-scoped sticky index whose name is a well-framed buffer that is NOT
+/// valid UTF-8, e.g. [1, 1, 0x80, 0].  (Before /repo 6f5f4d8 `read_string` was `from_utf8_unchecked`: such a payload decoded
+/// "successfully" and aborted when the value was used.)
+pub open spec fn scope_name_invalid_utf8(s: Seq<u8>) -> bool {
+    match dec_tag(s) {
+        None => false,
+        Some((tag, k)) => tag == 1 && match dec_buf(s.skip(k as int)) {
+            None => false,
+            Some((b, k2)) => !valid_utf8(b),
         },
     }
 }
@@ -441,6 +493,8 @@ impl IndexScope {
                 Some((x, k)) => res is Ok && res->Ok_0 == x && k <= old(decoder).rest().len() && final(decoder).rest() == old(decoder).rest().skip(k as int),
                 None => res is Err,
             },
+            // a root name that is not valid UTF-8 is a decoding ERROR of the documented kind (never a value)
+            scope_name_invalid_utf8(old(decoder).rest()) ==> res is Err && res->Err_0 is UnexpectedValue,
             suffix_of(old(decoder).rest(), final(decoder).rest()),
     @start
         let ghost s0 = decoder.rest();
@@ -489,6 +543,7 @@ impl StickyIndex {
                 Some((x, k)) => res is Ok && res->Ok_0 == x && k <= old(decoder).rest().len() && final(decoder).rest() == old(decoder).rest().skip(k as int),
                 None => res is Err,
             },
+            scope_name_invalid_utf8(old(decoder).rest()) ==> res is Err && res->Err_0 is UnexpectedValue,
             suffix_of(old(decoder).rest(), final(decoder).rest()),
     @start
         let ghost s0 = decoder.rest();
@@ -574,6 +629,7 @@ pub proof fn theorem_scope_round_trip(x: IndexScope, tail: Seq<u8>)
             lemma_tag_round_trip(1u8, enc_buf(b) + tail);
             lemma_dec_enc_buf(b, tail);
             law_utf8_round_trip(name.chars@);
+            law_utf8_valid(name.chars@);
             assert(str_of(name.chars@) == name);
         },
     }
@@ -980,21 +1036,22 @@ impl<'a, C: ContentModel> ItemSlice<'a, C> {
 @*/
 
 // the `IndexScope::Nested` arm (type-scoped sticky index)
-/*@extract yrs/src/sticky_index.rs | impl StickyIndex | region get_offset | stmt=stmt:assign index ~ ptr.content_len | stmtnth=1 | tail=index | label=sticky_index_of_nested | rules=SUB(from=self.assoc;;to=assoc)
+/*@extract yrs/src/sticky_index.rs | impl StickyIndex | region get_offset | stmt=after:stmt:assign branch ~ Some(ptr) | stmtnth=1 | toend=1 | init=stmt:let index | tail=index | label=sticky_index_of_nested | rules=SUB(from=self.assoc;;to=assoc)
 @header
-    fn sticky_index_of_nested(ptr: BranchPtr<'_>, assoc: Assoc, mut index: u32) -> (r: u32)
+    fn sticky_index_of_nested(ptr: BranchPtr<'_>, assoc: Assoc) -> (r: u32)
 @sig
     ensures
         r == sticky_type_offset_spec(ptr.content_len, assoc),
 @*/
 
 // the `IndexScope::Root` arm (type-scoped sticky index)
-/*@extract yrs/src/sticky_index.rs | impl StickyIndex | region get_offset | stmt=stmt:assign index ~ ptr.content_len | stmtnth=2 | tail=index | label=sticky_index_of_root | rules=SUB(from=self.assoc;;to=assoc)
+/*@extract yrs/src/sticky_index.rs | impl StickyIndex | region get_offset | stmt=after:stmt:assign branch ~ get_type | stmtnth=1 | toend=1 | init=stmt:let index | tail=index | label=sticky_index_of_root | rules=SUB(from=self.assoc;;to=assoc) SUB(from=branch.as_ref();;to=branch)
 @header
-    fn sticky_index_of_root(ptr: &BranchPtr<'_>, assoc: Assoc, mut index: u32) -> (r: u32)
+    fn sticky_index_of_root(branch: Option<&BranchPtr<'_>>, assoc: Assoc) -> (r: u32)
 @sig
     ensures
-        r == sticky_type_offset_spec(ptr.content_len, assoc),
+        // a root type that exists: END / START of the collection; an unknown root leaves the index at its initial 0
+        r == (match branch { Some(ptr) => sticky_type_offset_spec(ptr.content_len, assoc), None => 0 }),
 @*/
 
 } // verus!
